@@ -135,7 +135,7 @@ Proof.
 Qed.
 
 (* ------------------------------------------------------------------ *)
-(* the loop, generically: items X, parsed segments A, admissible exceptions Adm *)
+(* the loop, generically: items X, parsed segments A, acceptable exceptions Adm *)
 
 Section Safe.
 Variable Adm : exn -> Prop.
@@ -145,7 +145,7 @@ Variable X A : Type.
 Variable raw : X -> str.
 Variable mkseg : X -> option sref -> result A.
 Variable nm : A -> str.
-Variable admission : str * sref * structure -> list str -> str -> result unit.
+Variable acceptance : str * sref * structure -> list str -> str -> result unit.
 Variable root : sref.
 (* what is recorded about every segment of the forest (B2: it can be encoded) *)
 Variable Q : A -> option sref -> Prop.
@@ -157,22 +157,22 @@ Hypothesis Hgrp : forall r g gr, gref r -> declared t r GRP g gr -> gref gr /\ g
 Hypothesis Hps : forall r, gref r -> exists st, parse_structure t r = Ok st.
 Hypothesis Hsearch : forall name r, gref r -> exists y, search t search_fuel name r = Ok y.
 Hypothesis Hdist : forall ex, chain t root ex -> NoDup (map fst ex).
-Hypothesis Hadm : forall p have c, sp Adm TT (admission p have c).
+Hypothesis Hadm : forall p have c, sp Adm TT (acceptance p have c).
 Hypothesis Hseg : forall r x sr, gref r -> declared t r SEG (raw x) sr -> sr <> SBad ->
   sp Adm (fun a => Q a (Some sr)) (mkseg x (Some sr)).
 Hypothesis Hseg0 : forall x, sp Adm (fun a => Q a None) (mkseg x None).
 
 Notation gstate := (gstate A).
 Notation cur_group := (@cur_group A).
-Notation add_child := (add_child A nm admission).
-Notation open_group := (open_group t A nm admission).
-Notation open_groups := (open_groups t A nm admission).
-Notation reopen_group := (reopen_group t A nm admission).
-Notation place := (place X A mkseg nm admission).
-Notation after_found := (after_found t X A raw mkseg nm admission root).
-Notation attempts := (attempts t X A raw mkseg nm admission root).
-Notation step := (step t X A raw mkseg nm admission root).
-Notation run := (run t X A raw mkseg nm admission root).
+Notation add_child := (add_child A nm acceptance).
+Notation open_group := (open_group t A nm acceptance).
+Notation open_groups := (open_groups t A nm acceptance).
+Notation reopen_group := (reopen_group t A nm acceptance).
+Notation place := (place X A mkseg nm acceptance).
+Notation after_found := (after_found t X A raw mkseg nm acceptance root).
+Notation attempts := (attempts t X A raw mkseg nm acceptance root).
+Notation step := (step t X A raw mkseg nm acceptance root).
+Notation run := (run t X A raw mkseg nm acceptance root).
 Notation sspine := (st_spine A).
 Notation sclosed := (st_closed A).
 Notation stack_of := (stack_of root).
@@ -238,7 +238,7 @@ Proof.
   cbn [map some_e fst snd Groups.open_groups]. inversion Hg as [|? ? Hg1 Hg2]; subst.
   apply (sp_bind_eq Adm TT); [apply open_group_safe; [exact Hs|now apply Hps]|].
   intros s1 E1 _. apply IH; [|exact Hg2].
-  exact (proj1 (open_group_spine t A nm admission _ _ _ _ Hs E1)).
+  exact (proj1 (open_group_spine t A nm acceptance _ _ _ _ Hs E1)).
 Qed.
 
 (* the branch taken once the reference has been found *)
@@ -264,7 +264,7 @@ Proof.
   - destruct c as [[[[n r] st] cs]|].
     + pose proof (cur_group_at _ _ _ _ _ Ec) as Hga.
       destruct (path_entries_group _ _ _ _ _ _ _ _ He Hga) as (ex0 & ->).
-      destruct (group_at_sound t X A raw mkseg admission root _ root _ _ _ _ _ Hf Hga) as (Hr & pr' & Hr' & Hnode).
+      destruct (group_at_sound t X A raw mkseg acceptance root _ root _ _ _ _ _ Hf Hga) as (Hr & pr' & Hr' & Hnode).
       apply sound_tree_GG in Hnode. destruct Hnode as ((Hdn & Hgn) & Hpst & Hcs).
       destruct (negb (opt_eqb (fst top) (Some n))) eqn:Eneq.
       * destruct (index_of_in (Some n, r) (stack_of ((ex0 ++ [(n, r)]) ++ extra))) with (i0 := 0) as [i Ei].
@@ -290,8 +290,8 @@ Proof.
         assert (Hge : Forall (fun p => gref (snd p)) extra) by (apply Forall_app in Hall; tauto).
         eapply sp_post; [apply (open_groups_safe extra s Hsp Hge)|].
         intros s2 E2 _. split.
-        -- exact (proj1 (open_groups_spine t A nm admission _ _ _ Hsp E2)).
-        -- exact (open_groups_seg_all t A nm admission Q _ _ _ Hq E2).
+        -- exact (proj1 (open_groups_spine t A nm acceptance _ _ _ Hsp E2)).
+        -- exact (open_groups_seg_all t A nm acceptance Q _ _ _ Hq E2).
       * apply negb_false_iff in Eneq. apply opt_eqb_eq in Eneq.
         assert (Eextra : extra = []).
         { destruct (list_snoc_cases extra) as [->|(extra' & [g gr] & ->)]; [reflexivity|]. exfalso.
@@ -321,8 +321,8 @@ Proof.
         { unfold st_spine, up. cbn [g_path g_forest]. apply (closed_removelast A (g_path s) (g_forest s) Hc). }
         eapply sp_post; [apply (open_group_safe up n r Hup); eauto|].
         intros s2 E2 _. split.
-        -- exact (proj1 (open_group_spine t A nm admission _ _ _ _ Hup E2)).
-        -- exact (open_group_seg_all t A nm admission Q up n r s2 Hq E2).
+        -- exact (proj1 (open_group_spine t A nm acceptance _ _ _ _ Hup E2)).
+        -- exact (open_group_seg_all t A nm acceptance Q up n r s2 Hq E2).
     + pose proof (cur_group_top _ Ec) as Hp.
       assert (Eex : ex = []).
       { pose proof (path_entries_length _ _ _ _ He) as El. rewrite Hp in El. now destruct ex. }
@@ -332,12 +332,12 @@ Proof.
       change (skipn 1 (stack_of extra)) with (map some_e extra).
       eapply sp_post; [apply (open_groups_safe extra s Hsp Hall)|].
       intros s2 E2 _. split.
-      * exact (proj1 (open_groups_spine t A nm admission _ _ _ Hsp E2)).
-      * exact (open_groups_seg_all t A nm admission Q _ _ _ Hq E2).
+      * exact (proj1 (open_groups_spine t A nm acceptance _ _ _ Hsp E2)).
+      * exact (open_groups_seg_all t A nm acceptance Q _ _ _ Hq E2).
   - intros s2 [Hsp2 Hq2]. unfold Groups.place.
     apply (sp_bind Adm (fun a => Q a (Some sr))); [exact (Hseg _ x sr Hlast Hd Hnb)|].
     intros a Ha. eapply sp_post; [apply (add_child_safe s2 (GS a (Some sr)) Hsp2)|].
-    intros s' E' _. exact (add_child_seg_all A nm admission Q s2 (GS a (Some sr)) s' Hq2 Ha E').
+    intros s' E' _. exact (add_child_seg_all A nm acceptance Q s2 (GS a (Some sr)) s' Hq2 Ha E').
 Qed.
 
 (* the state between two input items *)
@@ -367,10 +367,10 @@ Proof.
     apply (sp_bind_eq Adm (fun s' => Forall segs (g_forest s'))).
     + apply (after_found_safe x sr s0 ex extra); try assumption; reflexivity.
     + intros s1 E1 Hq1. cbn. split; [|split; [|split]].
-      * exact (proj1 (after_found_closed t X A raw mkseg nm admission root x sr s0 s1 Hc E1)).
+      * exact (proj1 (after_found_closed t X A raw mkseg nm acceptance root x sr s0 s1 Hc E1)).
       * exists (ex ++ extra).
-        apply (after_found_mirror t X A raw mkseg nm admission root Htab Hdist x sr s0 s1 ex extra); try assumption; reflexivity.
-      * apply (after_found_sound t X A raw mkseg nm admission root Htab x sr s0 s1 (ex ++ extra)); try assumption; reflexivity.
+        apply (after_found_mirror t X A raw mkseg nm acceptance root Htab Hdist x sr s0 s1 ex extra); try assumption; reflexivity.
+      * apply (after_found_sound t X A raw mkseg nm acceptance root Htab x sr s0 s1 (ex ++ extra)); try assumption; reflexivity.
       * exact Hq1.
   - pose proof (path_entries_length _ _ _ _ He) as El. destruct (g_path s) as [|i p] eqn:Ep.
     + destruct ex; [|discriminate]. exact I.
@@ -413,9 +413,9 @@ Proof.
   apply (sp_bind Adm inv); [now apply step_safe|]. intros s' Hi'. now apply IH.
 Qed.
 
-(* the search as a whole: a forest all of whose segments satisfy Q, or an admissible exception *)
+(* the search as a whole: a forest all of whose segments satisfy Q, or an acceptable exception *)
 Theorem find_groups_safe xs :
-  sp (fun f => Forall segs f /\ Forall (ne_tree A) f) (find_groups t X A raw mkseg nm admission root xs).
+  sp (fun f => Forall segs f /\ Forall (ne_tree A) f) (find_groups t X A raw mkseg nm acceptance root xs).
 Proof.
   unfold find_groups. apply (sp_bind Adm inv).
   - apply run_safe. split; [split; constructor|]. split; [|split; constructor].
@@ -650,9 +650,9 @@ Hypothesis Hleaf : forall dt s, sp Adm TT (leaf dt s).
 (* what the encoder needs of a segment *)
 Definition encodable (a : seg) : Prop := forall e' trailing, exists x, enc_segment t e' a trailing = Ok x.
 
-Lemma group_admission_safe p have c : sp Adm TT (group_admission t lvl p have c).
+Lemma group_acceptance_safe p have c : sp Adm TT (group_acceptance t lvl p have c).
 Proof.
-  destruct p as [[n r] st]. unfold group_admission, child_admission. apply (sp_bind Adm TT).
+  destruct p as [[n r] st]. unfold group_acceptance, child_acceptance. apply (sp_bind Adm TT).
   - unfold find_child_check.
     repeat match goal with |- sp _ _ (if ?b then _ else _) => destruct b end; first [exact I|apply AdmH].
   - intros _ _. destruct (child_card_ok _ _ _ _); first [exact I|apply AdmH].
@@ -681,14 +681,14 @@ Theorem parse_segments_grouped_safe root text : gref t root ->
 Proof.
   intros Hroot Hdist. unfold parse_segments_grouped, parse_segments_grouped_trees.
   apply (sp_bind Adm (fun f => Forall (seg_all seg (fun a _ => encodable a)) f /\ Forall (ne_tree seg) f)).
-  - apply (find_groups_safe Adm t str seg (take 3) (seg_of_piece t lvl e leaf) s_name (group_admission t lvl)
+  - apply (find_groups_safe Adm t str seg (take 3) (seg_of_piece t lvl e leaf) s_name (group_acceptance t lvl)
              root (fun a _ => encodable a) (gref t)).
     + exact Hroot.
     + intros r g gr. apply gref_grp.
     + apply gref_parse.
     + intros name r. apply gref_search.
     + exact Hdist.
-    + apply group_admission_safe.
+    + apply group_acceptance_safe.
     + intros r x sr. apply seg_of_piece_safe_ref.
     + apply seg_of_piece_safe.
   - intros f [Hf _]. cbn. rewrite Forall_forall in *. intros y Hy. apply in_map_iff in Hy.
